@@ -37,8 +37,37 @@ var States = map[string][]string{
 	"staking-binding": {"x.bo", "d", "x.st", "d", "x.bn", "d", "x.e", "d"},
 }
 
+// DeepStates are added in the thorough tier.
+var DeepStates = map[string][]string{
+	"lagging":            {"x.ca", "d", "x.pa", "x.e"},
+	"lagging-reorg":      {"x.pa", "d", "x.sa", "d", "r.2.E"},
+	"pending-incoming":   {"x.ca", "d", "y.in"},
+	"removed":            {"x.ab", "d", "k.rm", "k.run"},
+	"imported":           {"x.pc0", "d", "i.m0", "i.s"},
+	"restart-with-coins": {"x.ca", "d", "x.pa", "d", "x.e", "d", "z"},
+	"more-addresses":     {"n.a", "n.a", "x.pa", "d"},
+	"conflicted-pending": {"x.pa", "d", "x.pa", "d", "y.sp", "x.cc", "d"},
+	"binding-withdrawn":  {"x.e", "d", "x.e", "d", "x.bn", "d", "x.e", "d", "x.e", "d", "x.e", "d", "x.bw", "d"},
+	"staking-withdrawn":  {"x.st", "d", "x.e", "d", "x.e", "d", "x.sw", "d"},
+}
+
 type Opts struct {
-	Cap int `json:"cap"` // calls per method and state
+	Cap  int  `json:"cap"`  // calls per method and state
+	Deep bool `json:"deep"` // include DeepStates
+}
+
+func (m *Model) states() map[string][]string {
+	if !m.O.Deep {
+		return States
+	}
+	all := map[string][]string{}
+	for k, v := range States {
+		all[k] = v
+	}
+	for k, v := range DeepStates {
+		all[k] = v
+	}
+	return all
 }
 
 type ctxT struct {
@@ -88,9 +117,9 @@ func (c *ctxT) domain(name string, t reflect.Type) []reflect.Value {
 			return vs(c.rawTx, c.rawTx[:len(c.rawTx)/2], "", "abc", "zz", strings.Repeat("00", 40))
 		case strings.Contains(n, "amount") || strings.Contains(n, "fee") || strings.Contains(n, "value"):
 			if strings.Contains(n, "fee") {
-				return vs("0.001", "0", "1", "0.00000001", "206438400", "-1", "abc", "", "1.123456789")
+				return vs("0.001", "0", "1", "0.00000001", "206438400", "-1", "abc", "", "1.123456789", "1.100000000", "2.0000000000", "1.", ".5", "1e3", " 1", "+1", "0x10", "1,5", "１")
 			}
-			return vs("0.5", "0", "0.00000001", "206438400", "1000000000", "-1", "abc", "", "1.123456789")
+			return vs("0.5", "0", "0.00000001", "206438400", "1000000000", "-1", "abc", "", "1.123456789", "1.100000000", "2.0000000000", "1.", ".5", "1e3", " 1", "+1", "0x10", "1,5", "１")
 		case strings.Contains(n, "flags"):
 			return vs("ALL", "NONE", "SINGLE", "ALL|ANYONECANPAY", "NONE|ANYONECANPAY", "SINGLE|ANYONECANPAY", "BOGUS", "")
 		case strings.Contains(n, "mnemonic"):
@@ -162,7 +191,7 @@ func (c *ctxT) domain(name string, t reflect.Type) []reflect.Value {
 				return m
 			}
 			s := c.stranger
-			return []reflect.Value{mk(s, "0.5"), reflect.Zero(t), mk(s, "1", a1, "0.5"), mk("garbage", "1"), mk(s, "abc"), mk(s, "0"), mk(s, "100000000"), mk(st0, "1")}
+			return []reflect.Value{mk(s, "0.5"), reflect.Zero(t), mk(s, "1", a1, "0.5"), mk("garbage", "1"), mk(s, "abc"), mk(s, "0"), mk(s, "100000000"), mk(st0, "1"), mk(s, "1.100000000"), mk(s, "0.0000000000"), mk(s, "-0.5")}
 		}
 	case reflect.Ptr:
 		if t.Elem().Kind() == reflect.Struct {
@@ -269,7 +298,7 @@ func (m *Model) Run(hist []string) *proto.Result {
 	if len(hist) == 0 { // root: list (state, method) pairs as successors
 		res.Key = "root"
 		var names []string
-		for s := range States {
+		for s := range m.states() {
 			names = append(names, s)
 		}
 		sort.Strings(names)
@@ -288,7 +317,7 @@ func (m *Model) Run(hist []string) *proto.Result {
 	}
 	defer func() { w.Close() }()
 	w.I.W.VerifInitTaskChan()
-	for i, ev := range States[hist[0]] {
+	for i, ev := range m.states()[hist[0]] {
 		ok, err := w.Apply(ev)
 		if err != nil || !ok {
 			res.Err = fmt.Sprintf("state %s event %d %s: enabled=%v err=%v", hist[0], i, ev, ok, err)
